@@ -215,7 +215,7 @@ def status(pid):
         m = json.load(open(d + 'meta.json'))
         sid = os.path.basename(d[:-1])
         v = m.get('verification', {})
-        runs = [(p, ('MISSED' if c['exit'] == 0 else ('infra' if c['exit'] == 2 else ('caught-nofail' if any('no-failing-input-found' in l for l in c['lines']) else 'caught')))) for p, c in v.get('checks', {}).items()]
+        runs = [(p, ('MISSED' if c['exit'] == 0 else ('infra' if c['exit'] == 2 else 'timeout' if c['exit'] == 124 else ('caught-nofail' if any('no-failing-input-found' in l for l in c['lines']) else 'caught')))) for p, c in v.get('checks', {}).items()]
         runs += [(r['check'], r['result'] + ' (later run)') for r in m.get('later_runs', [])]
         out.append("  %s: %s\n      needs: %s\n      our check: %s" % (sid, (m.get('summary') or '')[:300].replace('\n', ' '), (m.get('needs_to_manifest') or '')[:300].replace('\n', ' '), ', '.join('%s %s' % r for r in runs)))
     return '\n'.join(out)
